@@ -57,7 +57,19 @@ def s_mod2(v):
     return v.idx % 2
 
 
-SORTS = {"none": None, "idx": s_idx, "neg": s_neg, "const": s_const, "mod2": s_mod2}
+def s_mixed_numbers(v):
+    """Keys of different numeric TYPES that order fine among each other: 0.5 < 1 < 1.5 < True+1 ..."""
+    i = v.idx
+    return [i, i + 0.5, float(i) - 0.25, bool(i % 2) + i - 1][i % 4]
+
+
+def s_tuple_key(v):
+    """Composite keys: (group, -idx) - ties in the first component, mixed int/float inside"""
+    return (v.idx % 3, -v.idx / 2 if v.idx % 2 else -v.idx)
+
+
+SORTS = {"none": None, "idx": s_idx, "neg": s_neg, "const": s_const, "mod2": s_mod2, "mixed_numbers": s_mixed_numbers,
+         "tuple_key": s_tuple_key}
 
 
 def floors(ctx):
